@@ -137,6 +137,24 @@ fn check_pair(a: &Item, b: &Item, st: &mut Stats, mode: Count) {
         if (up != *sa && *ia == up.as_str()) || (us != *sa && *ia == us.as_str()) || (sa.len() > 2 && *ia == &sa[..sa.len() - 1]) {
             st.fail("langid:eq-str-accepts-non-canonical", case(), size, sa.clone());
         }
+        for pad in ["\0", " ", "-", "-x", "\0\0\0", "-US", "-valencia", "_"] {
+            let p1 = format!("{sa}{pad}");
+            let p2 = format!("{pad}{sa}");
+            if *ia == p1.as_str() || *ia == p2.as_str() {
+                st.fail("langid:eq-str-accepts-padded-text", case(), size, format!("{sa:?} == {p1:?} or {p2:?}"));
+            }
+        }
+        // Eq / Hash / Ord must stay mutually consistent whatever the public fields hold,
+        // including the unsupported `other` map (== vs to_string is NOT claimed for it)
+        let mut x = a.loc.clone();
+        let key = if a.case_h % 2 == 0 { 'a' } else { 'b' };
+        x.extensions.other.insert(key, vec![]);
+        let y = a.loc.clone();
+        let e = x == y;
+        let ee = x.extensions == y.extensions;
+        if (e && (h(&x) != h(&y) || x.cmp(&y) != Ordering::Equal)) || (!e && x.cmp(&y) == Ordering::Equal) || (ee && (h(&x.extensions) != h(&y.extensions) || x.extensions.cmp(&y.extensions) != Ordering::Equal)) || (!ee && x.extensions.cmp(&y.extensions) == Ordering::Equal) {
+            st.fail("locale:eq-hash-ord-inconsistent-with-other-field", case(), size, format!("{:?}: == is {e}, hashes equal {}, cmp {:?}", a.s, h(&x) == h(&y), x.cmp(&y)));
+        }
     }
     let diff_fields = (ma.language != mb.language) as u8 + (ma.script != mb.script) as u8 + (ma.region != mb.region) as u8 + (ma.variants != mb.variants) as u8 + (ea.unicode != eb.unicode) as u8 + (ea.transform != eb.transform) as u8 + (ea.private != eb.private) as u8;
     let nontrivial = (same_s && a.case_s != b.case_s) || diff_fields == 1;
